@@ -168,7 +168,7 @@ def runTx (f : Frame) (table : Str) (o : WriteOpts) (ex : Bool) (failAt : Option
       let ci := 1 + tr.length
       if failAt = some ci then ((.begin, true) :: tr ++ [(.commit, false)], false)
       else ((.begin, true) :: tr ++ [(.commit, true)], true)
-    else ((.begin, true) :: tr ++ [(.rollback, true)], false)
+    else ((.begin, true) :: tr ++ [(.rollback, decide (failAt ≠ some (1 + tr.length)))], false)
 
 /-! ### abstract transactional database -/
 
